@@ -245,4 +245,20 @@ class C10(Prop):
         return True, "a==b" if a == b else "a!=b"
 
 
-PROP = C10()
+from srccall import with_src  # noqa: E402
+
+# translated source (x5): `__eq__` / `__hash__` of Specifier and SpecifierSet, regenerated from specifiers.py and proved
+# equal to the key equality (`SSet.key`, `SSet.SpecSet.eq`) the C10 theorems are about; what is hashed is the very value
+# that `__eq__` compares (`_canonical_spec`, the frozenset `_specs`)
+PROP = with_src(C10(), share=10,
+                functions=["Specifier.__eq__", "Specifier.__hash__", "SpecifierSet.__eq__", "SpecifierSet.__hash__"],
+                module=["PkgProofs.Props.Src.SSetMember", "PkgProofs.Props.Src.SSetBuild", "PkgProofs.Props.Src.SSetRead"],
+                theorems=["Src.member_translated", "Src.build_translated", "Src.read_translated",
+                          "Src.Specifier.__eq___eq_model", "Src.Specifier.__eq___str", "Src.Specifier.__hash___eq_model",
+                          "Src.SpecifierSet.__eq___eq_model", "Src.SpecifierSet.__eq___str", "Src.SpecifierSet.__eq___spec",
+                          "Src.SpecifierSet.__hash___eq_model"])
+# … and of Requirement (requirements.py) against Req.eq / the hashed tuple
+PROP = with_src(PROP, share=10, functions=["Requirement.__eq__", "Requirement.__hash__"],
+                module=["PkgProofs.Props.Src.ReqStr", "PkgProofs.Props.Src.ReqEq"],
+                theorems=["Src.reqstr_translated", "Src.reqeq_translated", "Src.Requirement.__eq___eq_model",
+                          "Src.Requirement.__eq___parsed", "Src.Requirement.__eq___other", "Src.Requirement.__hash___eq_model"])
